@@ -198,7 +198,7 @@ func init() { historyOracles["C13"] = func() oracle { return &c13{} } }
 var c13Weights = map[string]int{
 	"create": 8, "openfile": 3, "write": 3, "close": 6,
 	"mkdir": 8, "mkdirall": 8, "remove": 3, "removeall": 3, "rename": 5,
-	"chmod": 1, "symlink": 1, "reopen": 1, "arch_archive": 2,
+	"chmod": 1, "symlink": 1, "reopen": 1, "rebuild": 1, "arch_archive": 2,
 }
 
 func TestC13(t *testing.T) {
